@@ -269,7 +269,12 @@ class QubitInit:
     raises_only = ("JaqalError",)
 
     def ensures_fields(self, name, alias_from, alias_index, result):
-        return same(self._name, name) and same(self._alias_from, alias_from) and same(self._alias_index, alias_index)
+        return same(self._name, name) and same(self._alias_from, alias_from)
+
+    def ensures_index_is_stored_as_int(self, name, alias_from, alias_index, result):
+        # an integral float (a let overridden with 2.0) denotes that integer: the backends shift and index with it
+        return (implies(is_float(alias_index) and alias_index == int(alias_index), is_int(self._alias_index) and self._alias_index == alias_index)
+                and implies(not (is_float(alias_index) and alias_index == int(alias_index)), same(self._alias_index, alias_index)))
 
     def region_negative_index(self, name, alias_from, alias_index):
         return is_int(alias_index) and alias_index < 0
@@ -320,7 +325,8 @@ class RegisterInit:
     let-valued bounds must be of an integer kind.  Nothing but JaqalError escapes; the four fields are set."""
 
     def requires(self, name, size, alias_from, alias_slice):
-        return (type_is(self, Register) and is_str(name) and (size is None or is_intconst(size))
+        return (type_is(self, Register) and is_str(name)
+                and (size is None or is_int(size) or is_float(size) or (type_is(size, Constant) and isinstance(size._kind, ParamType)))
                 and (alias_from is None or wf_reg(alias_from))
                 and (alias_slice is None or (wf_slice(alias_slice) and alias_from is not None
                                              and kinded(alias_slice.start) and kinded(alias_slice.stop) and kinded(alias_slice.step))))
@@ -330,6 +336,8 @@ class RegisterInit:
     def raises_JaqalError(self, name, size, alias_from, alias_slice):
         return ((alias_from is None and not (alias_slice is None and size is not None))
                 or (size is not None and alias_from is not None)
+                # a size must be an integer: an integral float denotes it, a float-kinded let or any other float is refused
+                or (is_float(size) and size != int(size)) or bad_kind(size)
                 or (alias_slice is not None and any_annotated(alias_slice)
                     and (bad_kind(alias_slice.start) or bad_kind(alias_slice.stop) or bad_kind(alias_slice.step)))
                 or (alias_slice is not None and not any_annotated(alias_slice)
@@ -339,7 +347,8 @@ class RegisterInit:
     raises_only = ("JaqalError",)
 
     def ensures_fields(self, name, size, alias_from, alias_slice, result):
-        return same(self._name, name) and same(self._size, size) and same(self._alias_from, alias_from) and same(self._alias_slice, alias_slice)
+        return (same(self._name, name) and same(self._alias_from, alias_from) and same(self._alias_slice, alias_slice)
+                and implies(is_float(size), is_int(self._size) and self._size == size) and implies(not is_float(size), same(self._size, size)))
 
 
 # ---------------------------------------------------------------- C07 / C13: references that mention macro parameters
